@@ -10,3 +10,14 @@ Definition entry_crypt (seal_key open_key op arg : N) (pt : bytes) : option byte
             | 0 => c | 1 => Flipped arg c | 2 => TruncatedTo arg c | 3 => DropPrefix arg c | _ => Junk pt
             end in
   decrypt open_key c'.
+
+(* the data keys of a sequence of logins (the random source starts at 1), and whether the cookie of login i opens the
+   stored value of login j (positions from 0; out of range = no) *)
+Definition entry_mint (logins : list (N * option N)) : list N := map st_dek (mint_all 1 logins).
+
+Definition entry_dekswap (logins : list (N * option N)) (i j : N) : bool :=
+  let ts := mint_all 1 logins in
+  match nth_error ts (N.to_nat i), nth_error ts (N.to_nat j) with
+  | Some t, Some u => match open_with_ticket t u 0 [] with Some _ => true | None => false end
+  | _, _ => false
+  end.
